@@ -450,6 +450,19 @@ def c12_fixed_point(rng, tier):
             out.append(_fail("converged loads of surface %s are not the transfer of its aerodynamic forces on its deformed mesh (own spar line)" % n,
                              loads[:2], np.array(lt.get_val("loads"))[:2], **case))
         dms.append(dm)
+        # ... independently of the transfer component: the converged nodal loads, placed at the displaced nodes of the structure the
+        # FEM actually solves (the model's own `nodes` output), are statically equivalent to the converged panel forces at the
+        # quarter-chord points of the deformed mesh (for every surface: own spar line, tube or wingbox)
+        nodes = np.array(p.get_val("%s.nodes" % n)); disp = np.array(p.get_val("AS_point_0.coupled.%s.disp" % n))
+        qc = 0.75 * 0.5 * (dm[:-1, :-1] + dm[:-1, 1:]) + 0.25 * 0.5 * (dm[1:, :-1] + dm[1:, 1:])
+        P0 = np.array([0.3, -0.7, 0.2])
+        Mtot = np.cross(qc - P0, F).sum(axis=(0, 1)); fs = np.abs(F).max(); ms = max(np.abs(Mtot).max(), fs)
+        Mn = loads[:, 3:].sum(axis=0) + np.cross(nodes + disp[:, :3] - P0, loads[:, :3]).sum(axis=0)
+        if np.max(np.abs(loads[:, :3].sum(axis=0) - F.sum(axis=(0, 1)))) > 1e-9 * fs * F[..., 0].size or \
+                np.max(np.abs(Mn - Mtot)) > 1e-8 * ms * F[..., 0].size:
+            out.append(_fail("converged loads of surface %s (at the displaced structural nodes) are not statically equivalent to its "
+                             "aerodynamic forces on the deformed mesh" % n, Mn, Mtot, fem_model_type=x["fem_model_type"],
+                             fem_origin_key=x.get("fem_origin"), **case))
     # the flow about the deformed meshes (independent aero analysis at the same flight condition) gives the same forces
     sa = [dict(aero_surface(x["name"], x["mesh"], x["symmetry"]), S_ref_type=x["S_ref_type"]) for x in surfs]
     pa = pipelines.run_aero_point(sa, dict(flow, cg=np.zeros(3)), meshes=dms, compressible=compressible, rotational=rotational)
